@@ -64,7 +64,8 @@ theorem LockInv.actor {s s' : State} {e : Event} (hK : LockInv s) (hN : InvN s) 
     simp only [setPc_notes, acquire_f_lockHolder, release_f_lockHolder, incDisc_f_lockHolder,
       decDisc_f_lockHolder, link_f_lockHolder, unlink_f_lockHolder, eraseChild_f_lockHolder,
       clearParent_f_lockHolder, enterChild_notes, freeLoopStart_notes, childReturn_f_lockHolder,
-      childWakeNext_f_lockHolder, setNotified_f_lockHolder, afterDeadline_notes, afterNotify_notes,
+      childWakeNext_f_lockHolder, setNotified_f_lockHolder, afterDeadline_f_lockHolder,
+      afterNotify_f_lockHolder, markBorn_notes,
       PC.held] at hl ⊢
     first
       | (split
